@@ -184,11 +184,27 @@ class Gen:
             "[H]{[$][$]C(C[<7])(C[<7])(C[<]), [>7]CC(C)[<7], [>]OCC[<]; [>7][H], [>]F []}" + self.dist(),
         ])
 
+    def defective_list(self):
+        """a transition list that puts positive weight on an INCOMPATIBLE descriptor (itself, a wrong id, a wrong symbol):
+        the pick of that entry must end in an error, never in a bond (C04 / C15)"""
+        r = self.r
+        u = r.choice(["CC(C)", "CC", "OCC", "CC(c1ccccc1)"])
+        kind = r.choice(["self", "self", "id", "end"])
+        w = r.choice([1, 2, 5])
+        if kind == "self":      # descriptors: 0 [<]unit  1 [>|..|]unit  2 [<][H]  3 [>][H]
+            lst = [19, w, 0, 0]
+            return "C{[>] [<]" + u + self.bd(">", "", lst=lst) + "; [<][H], [>][H] []}" + self.dist(r.choice([80, 150]))
+        if kind == "id":        # 0 [<]  1 [>|..|]  2 [<2]X  3 [>2]  4 [<][H] 5 [>][H]: weight on the id-2 descriptor
+            lst = [9, 0, w, 0, 0, 0]
+            return "C{[>] [<]" + u + self.bd(">", "", lst=lst) + ", [<2]N[>2]; [<][H], [>][H] []}" + self.dist(r.choice([80, 150]))
+        lst = [9, 0, 0, w]      # weight on the end group of the same symbol
+        return "C{[>] [<]" + u + self.bd(">", "", lst=lst) + "; [<][H], [>][H] []}" + self.dist(r.choice([80, 150]))
+
     def plain(self):
         return self.r.choice(["CCO", "CCCCC", "c1ccccc1", "OCC(O)CO", "CC(=O)O", "[NH4+]", "C1CCCCC1"])
 
     ARCHETYPES = ["homopolymer", "random_copolymer", "block_copolymer", "alternating", "step_growth", "star", "graft",
-                  "end_initiated", "two_ids"]
+                  "end_initiated", "two_ids", "defective_list"]
 
     def molecule(self, archetype=None):
         a = archetype or self.r.choice(self.ARCHETYPES)
